@@ -99,7 +99,8 @@ impl<R: Read> LineProcessor<R> {
 
     /// Create a new line processor with custom configuration
     pub fn with_config(reader: R, config: LineProcessorConfig) -> Self {
-        let reader = BufReader::with_capacity(config.buffer_size, reader);
+        // A zero-capacity BufReader reports end of input at once: every line would be lost silently
+        let reader = BufReader::with_capacity(config.buffer_size.max(1), reader);
         let memory_pool = if config.use_secure_memory {
             // SAFETY: SecureMemoryPool::new with small_secure() configuration is designed
             // to never fail except in catastrophic OOM scenarios (out of physical memory).
